@@ -188,7 +188,12 @@ func (w *World) Tx(ctx sdk.Context, gasLimit uint64, msgs ...sdk.Msg) (res TxRes
 		if err != nil {
 			return failed(err)
 		}
-		_ = r
+		// the service router runs the handler under its own event manager and returns the events in the result
+		if r != nil {
+			for _, e := range r.GetEvents() {
+				em.EmitEvent(sdk.Event(e))
+			}
+		}
 	}
 	write()
 	res.Events = em.Events()
